@@ -67,6 +67,8 @@ pub struct Q1Snap {
     pub seq: u64,
     /// sync callers (op id, object, queue state tag) asleep on a condition variable although their queue can be claimed
     pub asleep_syncs: Vec<(u32, usize, u8)>,
+    /// per pipe with an output: (output, input stream, items pushed, items whose processing has started, finished, outputs read, depth, output dropped, consumer waiting)
+    pub pipes: Vec<(usize, usize, usize, usize, usize, usize, usize, bool, bool)>,
 }
 
 thread_local! {
@@ -200,6 +202,11 @@ fn take_snapshot(pi: usize, code: &'static str) -> Q1Snap {
     }
     for st in world.streams.iter() {
         snap.streams.push((st.drops, st.closure_drops));
+    }
+    for (oi, os) in world.outs.iter().enumerate() {
+        let Some(si) = os.src else { continue };
+        let st = &world.streams[si];
+        snap.pipes.push((oi, si, st.pushed.len(), st.processed.len(), st.processed.iter().filter(|p| p.2.is_some()).count(), os.outputs.len(), os.depth, os.dropped_at.is_some(), os.waiting.is_some()));
     }
     // everything is quiet: a caller asleep in sync on a queue that it could claim will not be woken by anybody
     let infos = kernel::task_infos();
